@@ -5,10 +5,36 @@ alphabet to operands chosen from the pool. States are deduplicated by a canonica
 the partition of all cores by shared buffers); values are excluded (see DESIGN.md, C06, for the argument).
 After every transition the invariants are evaluated on every live object against the shadow (pure NumPy snapshots).
 """
-import itertools, collections, time, traceback, sys, hashlib, json
+import itertools, collections, time, traceback, sys, hashlib, json, signal
 import numpy as np
 import multiprocessing as mp
 from vt.core import dense_cores, meta_problem
+
+
+DENSE_CAP = 1 << 14
+CPU_LIMIT_S = 20.0
+
+
+class CpuTimeout(Exception):
+    pass
+
+
+def _cpu_timeout(signum, frame):
+    raise CpuTimeout('more than %g s of CPU time' % CPU_LIMIT_S)
+
+
+
+def small(t):
+    """dense size of a tensor train small enough to be materialised (operand tuples with repetition can double the order)"""
+    try:
+        n = 1
+        for a, b in zip(t.row_dims, t.col_dims):
+            n *= int(a) * int(b)
+            if n > DENSE_CAP:
+                return False
+        return n * int(t.ranks[0]) * int(t.ranks[-1]) <= DENSE_CAP
+    except Exception:
+        return True
 
 
 class Shadow:
@@ -37,6 +63,8 @@ class System:
         for o in self.objs:
             if o is t:
                 return False
+        if meta_problem(t) is None and not small(t):
+            return False                         # too large to shadow densely: does not join the pool
         self.objs.append(t); self.tags.append({'result'}); self.shadows.append(Shadow(t, origin))
         while len(self.objs) > cap:
             del self.objs[self.n_init]; del self.tags[self.n_init]; del self.shadows[self.n_init]
@@ -144,7 +172,7 @@ def flatten_tts(res):
 def _flat_values(res, out, depth=0):
     from scikit_tt.tensor_train import TT
     if isinstance(res, TT):
-        out.append(('tt', dense_cores(res.cores) if meta_problem(res) is None else None))
+        out.append(('tt', dense_cores(res.cores) if (meta_problem(res) is None and small(res)) else None))
     elif isinstance(res, np.ndarray):
         out.append(('arr', np.array(res)))
     elif isinstance(res, (int, float, complex, np.number)):
@@ -199,9 +227,30 @@ def apply_transition(model, sys_, tr, check=True):
     objs = [sys_.objs[s] for s in slots]
     tgt = slots[op.target] if op.target is not None else None
     fails = []
+    alias_ref = None
+    if check and op.inplace and len(set(slots)) < len(slots) and not op.consume:
+        # I7 (aliased in-place call): reference = the same call on pairwise distinct copies of the operands
+        try:
+            from scikit_tt.tensor_train import TT
+            fr = [TT([np.array(c, copy=True) for c in o.cores]) for o in objs]
+            np.random.seed(12345)
+            op.run(sys_, *fr)
+            alias_ref = fr[op.target] if meta_problem(fr[op.target]) is None else None
+        except Exception:
+            alias_ref = None
     try:
         np.random.seed(12345)
-        res = op.run(sys_, *objs)
+        if op.may_raise:
+            # CPU-time guard (process virtual time, independent of machine load): numerically conditioned routines can take
+            # minutes on operands produced by earlier transitions (e.g. Krylov propagation of an unnormalised state makes
+            # expm_multiply take ~1e6 scaling steps); such a call is disabled like a raising one, its arguments are still checked
+            signal.signal(signal.SIGVTALRM, _cpu_timeout)
+            signal.setitimer(signal.ITIMER_VIRTUAL, CPU_LIMIT_S)
+        try:
+            res = op.run(sys_, *objs)
+        finally:
+            if op.may_raise:
+                signal.setitimer(signal.ITIMER_VIRTUAL, 0)
     except Exception as e:
         tb = traceback.extract_tb(sys.exc_info()[2])
         site = ''
@@ -217,6 +266,10 @@ def apply_transition(model, sys_, tr, check=True):
     results = flatten_tts(res)
     if check:
         fails = check_invariants(sys_, tgt, op.mode, results, op.base)
+        if not fails and alias_ref is not None and meta_problem(sys_.objs[tgt]) is None and small(sys_.objs[tgt]) and small(alias_ref):
+            va, vb = dense_cores(sys_.objs[tgt].cores), dense_cores(alias_ref.cores)
+            if va.shape != vb.shape or np.linalg.norm((va - vb).ravel()) > 1e-8 * max(1.0, float(np.linalg.norm(vb.ravel()))):
+                fails = [('I7:aliased-inplace-differs:%s' % op.base, '%s with one object in two argument positions gives a different target than with distinct copies' % op.name)]
         if not fails and not op.inplace:
             # I6: an operation documented to return a new object must not hand back a live object (an operand) by identity,
             # nor the same object twice; the initial state heading a returned trajectory is the one documented exception
@@ -231,6 +284,14 @@ def apply_transition(model, sys_, tr, check=True):
                     break
         if not fails and not op.inplace and getattr(model, 'recompute', True):
             fails = recompute_check(model, sys_, op, objs, res)
+    if not fails and tgt is not None and not op.consume and meta_problem(sys_.objs[tgt]) is None and not small(sys_.objs[tgt]):
+        # an in-place call grew its target beyond what can be shadowed densely: the target leaves the pool
+        del sys_.objs[tgt]; del sys_.tags[tgt]; del sys_.shadows[tgt]
+        if tgt < sys_.n_init:
+            sys_.n_init -= 1
+        tgt = None
+    if tgt is not None and not fails and op.mode == 'free':
+        sys_.tags[tgt] = {'result'}          # the documented target now holds a different tensor: its role tags ('hpd', ...) are void
     if tgt is not None and not fails:
         sys_.refresh(tgt, sys_.shadows[tgt].origin + '>' + op.base if sys_.shadows[tgt].origin.count('>') < 1 else None)
     joined = 0
@@ -251,7 +312,8 @@ def enabled_transitions(model, sys_, inplace_left):
     for oi, op in enumerate(model.ops):
         if op.inplace and inplace_left <= 0:
             continue
-        for slots in itertools.permutations(range(n), op.arity) if op.arity <= 2 else itertools.permutations(range(n), op.arity):
+        # operand tuples may repeat a slot: the SAME object passed in two argument positions (aliased inputs)
+        for slots in itertools.product(range(n), repeat=op.arity):
             try:
                 if op.enabled(sys_, *slots):
                     yield (oi, tuple(slots))
@@ -283,8 +345,9 @@ _MODEL = None
 
 
 def _expand(args):
-    pool, seed, history, inplace_used, bound_inplace, last_level, only_inplace = args
-    fresh_only = only_inplace == 'fresh'
+    pool, seed, history, inplace_used, bound_inplace, last_level, only_inplace = args[:7]
+    part = args[7] if len(args) > 7 else (0, 1)
+    fresh_only = True          # every level below the first: only operand tuples that touch the fresh part of the state
     only_inplace = only_inplace is True
     model = _MODEL
     out = {'succ': [], 'fails': [], 'transitions': 0, 'replays': 0, 'raised': 0}
@@ -296,9 +359,9 @@ def _expand(args):
         shared = shared_slots(sys_)
         trs = [tr for tr in trs if model.ops[tr[0]].inplace and tr[1][model.ops[tr[0]].target] in shared]
     if fresh_only and sys_.fresh_ids is not None:
-        # last level, reduced (sleep-set style): a transition all of whose operands were neither created nor modified by the
-        # last transition of the history, and share no buffer with such an object, was already executed with identical
-        # operands from the parent state; only transitions that touch the fresh part of the state are new
+        # sleep-set style reduction: a transition all of whose operands were neither created nor modified by the last
+        # transition of the history, and share no buffer with such an object, was already executed with identical operands
+        # from the parent state; only transitions that touch the fresh part of the state are new
         fresh = {i for i, o in enumerate(sys_.objs) if id(o) in sys_.fresh_ids}
         grow = True
         while grow:
@@ -307,6 +370,7 @@ def _expand(args):
                 if i not in fresh and any(a is b or np.may_share_memory(a, b) for j in fresh for a in sys_.objs[i].cores for b in sys_.objs[j].cores):
                     fresh.add(i); grow = True
         trs = [tr for tr in trs if any(s_ in fresh for s_ in tr[1])]
+    trs = trs[part[0]::part[1]]          # the transitions of one state may be spread over several tasks (load balance)
     dirty = False
     for tr in trs:
         op = model.ops[tr[0]]
@@ -362,10 +426,14 @@ def explore(model, tier, seed, jobs, depth, bound_inplace, pools=None, last_inpl
     with ctx.Pool(jobs) as p:
         for lvl in range(1, depth + 1):
             last = lvl == depth
-            args = [(pool, seed, h, iu, bound_inplace, last, last and last_inplace_only) for pool, h, iu in frontier]
+            # expensive pools (solvers, integrators) first, small chunks: the level ends when the slowest chunk does
+            heavy = lambda pl: 0 if any(w in pl for w in ('solver', 'chain', 'markov', 'quantum', 'data', 'snap')) else 1
+            frontier.sort(key=lambda x: heavy(x[0]))
+            nparts = lambda pl: (4 * jobs if lvl == 1 else (4 if heavy(pl) == 0 and lvl == 2 else 1))
+            args = [(pool, seed, h, iu, bound_inplace, last, last and last_inplace_only, (i_, nparts(pool))) for pool, h, iu in frontier for i_ in range(nparts(pool))]
             nxt = []
             new_per_pool = collections.Counter()
-            for (a, out) in zip(args, p.imap(_expand, args, chunksize=max(1, min(64, len(args) // (jobs * 8) or 1)))):
+            for (a, out) in zip(args, p.imap(_expand, args, chunksize=max(1, min(8, len(args) // (jobs * 16) or 1)))):
                 pool = a[0]
                 stats['transitions'] += out['transitions']; stats['replays'] += out['replays']; stats['raised'] += out['raised']
                 stats['per_pool'][pool]['transitions'] += out['transitions']
